@@ -506,6 +506,29 @@ Proof.
   exact (reader_sound dict None _ _ tail Hbytes Ha sizes fuel Hsz Hf).
 Qed.
 
+(* writer and reader multi-threaded: the units LZMA2ReaderMT cuts from what LZMA2WriterMT wrote
+   decode, each by a fresh reader, to pieces that concatenate to the written data *)
+Theorem lzma2_mt_writer_mt_reader lc lp pb dict us tail :
+  0 <= lc -> 0 <= lp -> lc + lp <= 4 -> 0 <= pb <= 4 -> dict <= 2147483648 ->
+  Forall (mt_unit_written lc lp pb dict) us -> bytes_ok tail = true ->
+  cr_end (cut_lzma2 (mt_bodies us ++ 0 :: tail)) = None /\
+  exists datas, Forall2 (fun u du => l2_decodes u dict None du) (cr_units (cut_lzma2 (mt_bodies us ++ 0 :: tail))) datas /\
+                concat datas = mt_data us.
+Proof.
+  intros Hlc Hlp Hs Hpb Hdict Hus Htail.
+  destruct (lzma2_mt_writer_data lc lp pb dict us tail Hlc Hlp Hs Hpb Hdict Hus Htail [1] (length (mt_data us) + 2)%nat
+              ltac:(constructor; [lia | constructor]) ltac:(lia)) as (s0 & s_end & Hnew & Hr & _).
+  assert (Hb : bytes_ok (mt_bodies us ++ 0 :: tail) = true).
+  { apply bytes_ok_app. split.
+    - unfold mt_bodies. clear -Hus Hdict. induction Hus as [|[[data evs] body] us (Hbd & Hne & Hw) _ IH]; [reflexivity|].
+      cbn [map snd concat]. apply bytes_ok_app. split; [|exact IH].
+      pose proof (lzma2_write_bytes lc lp pb dict data evs _ Hdict Hbd Hne Hw) as X. apply bytes_ok_app in X. apply X.
+    - apply bytes_ok_cons. split; [lia | exact Htail]. }
+  apply (lzma2_mt_reader_data dict None _ [1] (length (mt_data us) + 2)%nat (mt_data us) s_end Hb
+           ltac:(constructor; [lia | constructor])).
+  unfold l2_read_result. rewrite Hnew. cbn [obind]. exact Hr.
+Qed.
+
 (* ---- the two closed forms of the chunk-level statements ------------------------------------------ *)
 Theorem astep_indep_init : forall (ds : Z) (preset : option (list Z)) (d : dstate) (k : chunk),
   chunk_independent k = true -> astep ds d k = astep ds (d_init ds preset) k.
